@@ -95,7 +95,7 @@ fn check_ops(nsheets: u32, list: &[Op], st: &mut Stats) -> Option<(String, Strin
     }
 }
 
-const TEXTS: &[&str] = &["a<b>&c", "\"quoted\"", "tab\there", "line\nbreak", "_x000D_ literal", " lead and trail ", "emoji \u{1F600}", "rtl \u{5d0}\u{5d1}", "ctrl\u{1}\u{1f}", "'", "'=quoted formula look-alike","é ü ß", "\u{feff}bom", "]]>"];
+const TEXTS: &[&str] = &["a<b>&c", "\"quoted\"", "tab\there", "line\nbreak", "first\rsecond", "cr\r\nlf", "\r", "a\tb\rc", "_x000D_ literal", " lead and trail ", "emoji \u{1F600}", "rtl \u{5d0}\u{5d1}", "ctrl\u{1}\u{1f}", "'", "'=quoted formula look-alike","é ü ß", "\u{feff}bom", "]]>"];
 
 fn run(ctx: &Ctx) -> Stats {
     let n = ctx.n(2500, 120_000);
